@@ -15,7 +15,8 @@ LEVEL = "exploration"
 RULE = ("Part 'result': one Result type (SUM int / dyadic / general float, "
         "RATIO dyadic / general, CHOICE, MISC), value accumulation on/off, "
         "1..12 observations, a partition into contiguous non-empty chunks "
-        "(optionally preceded by an empty receiver and followed by direct "
+        "(optionally preceded by an empty receiver, with a never-updated "
+        "Result merged in at a drawn place, and followed by direct "
         "'tail' updates of the merged object) and a merge plan 'merge adjacent "
         "pair i' (left comb, right comb, balanced and mixed trees); "
         "non-trivial = >=3 observations, >=3 chunks and a merge plan that is "
@@ -26,8 +27,11 @@ RULE = ("Part 'result': one Result type (SUM int / dyadic / general float, "
         "0..2 late repetition sets merged into the appended object (they "
         "must reach the last variation only); "
         "non-trivial = some variation with >=3 repetitions in >=2 chunks.  "
-        "Part 'combine': combine_simulation_results of two result sets with "
-        "1..2 unpacked parameters whose values overlap in none/some/all; "
+        "Part 'combine': combine_simulation_results of two result sets, or "
+        "of three as (a+b)+c / a+(b+c), with 1..2 unpacked parameters (ints, "
+        "floats, nearly equal floats, ints in one set and floats in the "
+        "other, strings of different lengths) whose values overlap in "
+        "none/some/all; "
         "non-trivial = partial overlap.  distinct = SHA-1 of the case.")
 LEVEL_TEXT = ("Generated-history search (Hypothesis, seeded, sharded) over "
               "update sequences, partitions, merge association orders, result "
